@@ -320,8 +320,8 @@ Theorem C18_ETS_of_params : forall eo ty p p1,
   has_tp eo ty p -> op_ok eo -> md_ok eo -> PT ty p p1 -> ETS (JObj eo).
 Proof. exact ETS_of_params. Qed.
 Print Assumptions C18_ETS_of_params.
-(* params of a non-ROADM element: anything, then the optional per-frequency loss block, then the optional Raman block *)
-Theorem C18_PT_fiber : forall ty o ol orr, is_roadm ty = false -> fiber_params_ok o ol orr ->
+(* params of an element that is neither a ROADM nor a Transceiver: anything, then the optional per-frequency loss block, then the optional Raman block *)
+Theorem C18_PT_fiber : forall ty o ol orr, is_band ty = false -> fiber_params_ok o ol orr ->
   PT ty (o ++ lblk ol ++ rblk orr) (o ++ lout ol ++ rout orr).
 Proof. exact PT_fiber. Qed.
 Print Assumptions C18_PT_fiber.
@@ -331,6 +331,11 @@ Theorem C18_PT_roadm : forall ty o o1 o2 o3 ob, is_roadm ty = true -> roadm_para
   PT ty (o ++ dblocks o1 o2 o3 ++ bblk ob) (o ++ dout o1 o2 o3 ++ bout ob).
 Proof. exact PT_roadm. Qed.
 Print Assumptions C18_PT_roadm.
+
+(* params of a Transceiver (F17 fixed): anything, then the optional per-degree design bands *)
+Theorem C18_PT_trx : forall o ob, trx_params_ok o ob -> PT K_trx (o ++ bblk ob) (o ++ bout ob).
+Proof. exact PT_trx. Qed.
+Print Assumptions C18_PT_trx.
 
 (* non-vacuity: a library with two amplifiers (one openroadm with nf_coef), two SI entries, ... *)
 Definition ex_edfa1 : obj := [("type_variety"%string, JStr "std_medium_gain"); ("type_def"%string, JStr "variable_gain");
@@ -383,13 +388,16 @@ Proof.
   apply (y2l_l2y_equipment ex_eqpt t2 ex_eqpt_canonical E); vm_compute in E; injection E as <-; vm_compute; reflexivity.
 Qed.
 
-(* non-vacuity: a topology with a transceiver, a ROADM with pch and psd per-degree targets and per-degree design bands
+(* non-vacuity: a topology with two transceivers (one with per-degree design bands), a ROADM with pch and psd per-degree targets and per-degree design bands
    (city null), an amplifier with null settings, a fibre with per-frequency loss, lumped loss and Raman coefficients,
    a Raman fibre with a pump *)
 Definition ex_md (city : json) : json :=
   JObj [("location"%string, JObj [("city"%string, city); ("region"%string, JStr ""); ("latitude"%string, JNum 485 1); ("longitude"%string, JNum (-35) 1)])].
 Definition ex_trx : obj := [("uid"%string, JStr "trx A"); ("type"%string, JStr "Transceiver"); ("metadata"%string, ex_md (JStr "A"))].
 Definition ex_band : json := JArr [JObj [("f_min"%string, JNum 1913000000000000 1); ("f_max"%string, JNum 1961000000000000 1); ("spacing"%string, JNum 500000000000 1)]].
+Definition ex_trx2_o : obj := [("design_bands"%string, JArr [])].
+Definition ex_trx2 : obj := [("uid"%string, JStr "trx B"); ("type"%string, JStr "Transceiver");
+   ("params"%string, JObj (ex_trx2_o ++ bblk (Some [("roadm A"%string, ex_band)])))].
 Definition ex_roadm_o : obj := [("target_pch_out_db"%string, JNum (-200) 1);
    ("restrictions"%string, JObj [("preamp_variety_list"%string, JArr []); ("booster_variety_list"%string, JArr [JStr "std_medium_gain"])])].
 Definition ex_o1 : option obj := Some [("east edfa in A to B"%string, JNum (-185) 1); ("east edfa in A to C"%string, JNum (-1925) 2)].
@@ -411,7 +419,7 @@ Definition ex_fiber2 : obj := [("uid"%string, JStr "fiber BA"); ("type"%string, 
    ("params"%string, JObj (ex_fiber2_o ++ lblk None ++ rblk None))].
 Definition ex_edfa : obj := [("uid"%string, JStr "east edfa in A to B"); ("type"%string, JStr "Edfa"); ("type_variety"%string, JStr "std_medium_gain");
    ("operational"%string, JObj [("gain_target"%string, JNum 205 1); ("delta_p"%string, JNull); ("tilt_target"%string, JNum 0 1); ("out_voa"%string, JNull)])].
-Definition ex_els : list json := [JObj ex_trx; JObj ex_roadm; JObj ex_edfa; JObj ex_fiber; JObj ex_fiber2].
+Definition ex_els : list json := [JObj ex_trx; JObj ex_trx2; JObj ex_roadm; JObj ex_edfa; JObj ex_fiber; JObj ex_fiber2].
 Definition ex_topo : obj := [("network_name"%string, JStr "example"); ("elements"%string, JArr ex_els);
    ("connections"%string, JArr [JObj [("from_node"%string, JStr "trx A"); ("to_node"%string, JStr "roadm A")]])].
 
@@ -421,6 +429,12 @@ Proof.
   - apply (ETS_no_params ex_trx "Transceiver" eq_refl eq_refl).
     + split; [exact I|discriminate].
     + exact I.
+  - apply (ETS_of_params ex_trx2 K_trx (ex_trx2_o ++ bblk (Some [("roadm A"%string, ex_band)])) (ex_trx2_o ++ bout (Some [("roadm A"%string, ex_band)]))).
+    + split; reflexivity.
+    + split; [exact I|discriminate].
+    + exact I.
+    + apply PT_trx. constructor; try reflexivity; try exact I; try (intros lc; discriminate).
+      split; [discriminate|]. repeat constructor; cbn; intuition discriminate.
   - apply (ETS_of_params ex_roadm "Roadm" ex_roadm_p (ex_roadm_o ++ dout ex_o1 ex_o2 None ++ bout ex_ob)).
     + split; reflexivity.
     + split; [exact I|discriminate].
